@@ -143,9 +143,9 @@ pub fn rec_serde(a: &Args, out: &mut Out) {
         }
     }
     // text at and around the capacities
-    for k in 0..40usize {
+    for k in 0..48usize {
         let n = [0usize, 1, 15, 30, 31, 31, 31, 8][k % 8];
-        let style = k % 7;
+        let style = k % 9;
         let s: String = (0..n)
             .map(|i| match style {
                 0 => char::from_u32(0xC0 + ((i * 7 + k) % 0x3F) as u32).unwrap(), // Latin-1 high half
@@ -154,6 +154,8 @@ pub fn rec_serde(a: &Args, out: &mut Out) {
                 3 => '\u{ff}',
                 5 => if i % 2 == 0 { char::from_u32(0xC2 + ((i + k) % 30) as u32).unwrap() } else { char::from_u32(0x80 + ((i * 5 + k) % 64) as u32).unwrap() },
                 6 => if (i + k) % 4 == 0 { '\u{0}' } else { (b'a' + (i % 26) as u8) as char },
+                7 => if i == 0 || i + 1 == n { [' ', '\t', '\u{a0}', '\n'][k % 4] } else { (b'a' + (i % 26) as u8) as char },
+                8 => [' ', '\u{a0}', '\r', '\n'][(i + k) % 4],
                 _ => ['\u{100}', '漢', '\u{0}', 'x'][(i + k) % 4],
             })
             .collect();
@@ -182,6 +184,16 @@ pub fn rec_serde(a: &Args, out: &mut Out) {
                 _ => s.clone(),
             };
             t.text_str = ArrayString::from(txt.as_str());
+            emit(out, &Message::Msg1029(t.clone()), "utf8-text");
+            // white space at the ends (blank, tab, CR/LF, NBSP, ideographic space), only white space, control characters
+            let ws = [" ", "\n", "\r\n", "\t", "\u{a0}", "\u{3000}", "  ", "\u{0}", "\u{7f}", "\u{85}", "\u{2028}"];
+            let core = ["text", "", "é", "a b"][k % 4];
+            let txt2 = match k % 3 {
+                0 => format!("{}{}", core, ws[k % ws.len()]),
+                1 => format!("{}{}", ws[k % ws.len()], core),
+                _ => format!("{}{}{}", ws[(k + 3) % ws.len()], core, ws[k % ws.len()]),
+            };
+            t.text_str = ArrayString::from(txt2.as_str());
             emit(out, &Message::Msg1029(t), "utf8-text");
         }
     }
